@@ -162,6 +162,7 @@ pub fn observe_model(model: &Model, o: &ObsOpts) -> Obs {
     );
     let mut memo: HashMap<i32, String> = HashMap::new();
     let default_style = default_style_str();
+    let _ = &default_style;
     for (si, ws) in wb.worksheets.iter().enumerate() {
         let s = si as u32;
         let p = format!("s{}", si);
@@ -278,9 +279,11 @@ pub fn observe_model(model: &Model, o: &ObsOpts) -> Obs {
                     _ => String::new(),
                 };
                 let cp = format!("{}.R{}C{}", p, r, c);
+                // an empty cell whose style is what an absent cell would resolve to (row style, then
+                // column style, then default) is indistinguishable from an absent one by every getter
                 let is_absent_like = content.is_empty()
                     && matches!(kind, "none" | "empty")
-                    && style == default_style;
+                    && (kind == "none" || sidx == fallback_style_index(ws, r, c));
                 if is_absent_like {
                     continue;
                 }
@@ -328,6 +331,23 @@ pub fn observe_model(model: &Model, o: &ObsOpts) -> Obs {
         );
     }
     m
+}
+
+fn fallback_style_index(ws: &ironcalc_base::types::Worksheet, row: i32, column: i32) -> i32 {
+    for r in &ws.rows {
+        if r.r == row {
+            if r.custom_format {
+                return r.s;
+            }
+            break;
+        }
+    }
+    for c in &ws.cols {
+        if column >= c.min && column <= c.max {
+            return c.style.unwrap_or(0);
+        }
+    }
+    0
 }
 
 /// The dxf_id inside a rule is an index into a pool; the dxf itself is observed separately.
